@@ -217,6 +217,25 @@ def run_C12(ctx):
 
 
 # ---- C15 ---------------------------------------------------------------------------
+def store_single_precision(path):
+    """rewrite the table columns of an SED file as 4-byte floats (FITS 'E' columns, the storage of the published model
+    packages) when every value fits; returns True if rewritten"""
+    from astropy.io import fits
+    with fits.open(path) as h:
+        for ext in h[1:]:
+            for c in ext.columns:
+                a = np.abs(np.asarray(ext.data[c.name], dtype=float))
+                if not np.all(np.isfinite(a)) or np.any(a > 1e37) or np.any((a < 1e-37) & (a > 0)):
+                    return False
+        hdus = [h[0].copy()]
+        for ext in h[1:]:
+            cols = [fits.Column(name=c.name, format=c.format.replace('D', 'E'), array=np.asarray(ext.data[c.name]).astype('float32'), unit=c.unit)
+                    for c in ext.columns]
+            hdus.append(fits.BinTableHDU.from_columns(cols, name=ext.name))
+        fits.HDUList(hdus).writeto(path, overwrite=True)
+    return True
+
+
 def replay_units(behs, tmpdir, seed):
     from astropy import units as u
     from sedfitter.sed import SED
@@ -243,10 +262,17 @@ def replay_units(behs, tmpdir, seed):
         cur = s
         path = None
         order = None
+        tol = 1e-9
+        # single-precision storage only where every cell (flux and error) stays inside the 4-byte range in the two intermediate
+        # forms the conversion goes through (erg/cm2/s and erg/cm2/s/Hz); the luminosity itself may be as large as it likes
+        e32 = all(-35 <= e_ <= 35 for a in range(na) for kk in ks for pp in (p0 + a, p0 + a - 1)
+                  for e_ in (convert_exp(u0, 'erg/cm2/s', pp, kk, j), convert_exp(u0, 'Jy', pp, kk, j) - 23))
         for hi, h in enumerate(hops[1:]):
             path = os.path.join(tmpdir, 'u_%d_%d_%d.fits' % (os.getpid(), bi, hi))
             try:
                 cur.write(path)
+                if e32 and (bi + hi) % 2 == 0 and store_single_precision(path):
+                    tol = 1e-6                  # the file holds 4-byte floats from here on
                 nxt = SED.read(path, unit_flux=u.Unit(UNIT_STR[h['to']]), order=rng.choice(['nu', 'wav']))
             except Exception as e:
                 sig = 'C15:raised:%s' % type(e).__name__
@@ -264,10 +290,10 @@ def replay_units(behs, tmpdir, seed):
             for a in range(na):
                 for w in range(nw):
                     want = convert_exp(u0, h['to'], p0 + a, knu[w], j)
-                    if abs(got[a, w] / 10.0 ** want - 1.0) > 1e-9:
+                    if not abs(got[a, w] / 10.0 ** want - 1.0) <= tol:
                         bad = 'cell (aperture %d, nu=1e%d Hz): %r %s, spec 1e%d' % (a, knu[w], got[a, w], h['to'], want)
                         break
-                    if abs(gote[a, w] / 10.0 ** (want - 1) - 1.0) > 1e-9:
+                    if not abs(gote[a, w] / 10.0 ** (want - 1) - 1.0) <= tol:
                         bad = 'ERROR cell (aperture %d, nu=1e%d Hz): %r %s, spec 1e%d' % (a, knu[w], gote[a, w], h['to'], want - 1)
                         break
                 if bad:
